@@ -118,10 +118,13 @@ class Spaces(object):
 
 
 # ------------------------------------------------------------------ building real operators
-def build(e, sp):
-    """Abstract program -> real ODL operator, through the PUBLIC constructors and Python overloads."""
+def build(e, sp, subst=None):
+    """Abstract program -> real ODL operator, through the PUBLIC constructors and Python overloads.
+    subst: optional {leaf kind: factory(sp) -> operator} replacing leaves (C10 wraps proximals this way)."""
     t = e['t']
     V = sp.V
+    if subst and t in subst:
+        return subst[t](sp)
     if t == 'id':
         return odl.IdentityOperator(V)
     if t == 'scale':
@@ -146,13 +149,13 @@ def build(e, sp):
         return odl.solvers.L1Norm(V)
     if t == 'smul':
         return odl.MultiplyOperator(sp.vec(e['v']), domain=sp.S)
-    A = build(e['l'], sp)
+    A = build(e['l'], sp, subst)
     if t == 'sum':
-        return A + build(e['r'], sp)
+        return A + build(e['r'], sp, subst)
     if t == 'sub':
-        return A - build(e['r'], sp)
+        return A - build(e['r'], sp, subst)
     if t == 'comp':
-        return A * build(e['r'], sp)
+        return A * build(e['r'], sp, subst)
     if t == 'neg':
         return -A
     if t == 'lscal':
